@@ -61,7 +61,10 @@ def resolvegen(sc, k, emit=True, invariants=("OracleSatisfiable", "OracleDiscrim
     return r, files
 
 
-def rg_script(script, extra_lines, rng, qfrac=1.0, maxans=1, exact=False, tag="rg", keep=False, cmp=False, qids=None, locs=(0, 1, 2), opts=None):
+RG_ECS = [("192.0.2.0", 24), ("10.1.5.0", 24), ("2001:db8::", 32), ("10.2.0.0", 16), ("198.51.100.7", 32)]
+
+
+def rg_script(script, extra_lines, rng, qfrac=1.0, maxans=1, exact=False, tag="rg", keep=False, cmp=False, qids=None, locs=(0, 1, 2), opts=None, ecs_mod=0):
     """one ResolveGen file (skeleton + extra lines) and its query grid"""
     script.file(rg_skeleton() + extra_lines, rng, tag=tag, keep=keep, opts=opts)
     n = 0
@@ -71,7 +74,9 @@ def rg_script(script, extra_lines, rng, qfrac=1.0, maxans=1, exact=False, tag="r
                 n += 1
                 if qfrac < 1.0 and rng.random() > qfrac:
                     continue
-                q, c = semlib.query(nm(qn), qt, RG_CLIENTS[loc], maxans=maxans, exact=exact, cmp=cmp)
+                # every ecs_mod-th query carries a client subnet (the universe has no ECS map: the resolver decides, scope 0)
+                ecs = RG_ECS[(n // ecs_mod) % len(RG_ECS)] if ecs_mod and n % ecs_mod == 0 else None
+                q, c = semlib.query(nm(qn), qt, RG_CLIENTS[loc], maxans=maxans, exact=exact, cmp=cmp, ecs=ecs)
                 script.q(q, c, qid=n, tag=tag)
 
 
@@ -128,9 +133,16 @@ def rd_script(script, entries, rng, tag="rd", opts=None, qtypes=(1, 65, 2, 6)):
 
 # ----------------------------------------------------------------------------- random worlds
 
+LOC_POOL = [1, 2, 3, 258, 0x0041, 0x0061, 0x4142, 0x5A61, 0x0130]      # incl. bytes that are upper- / lower-case letters and digits (no key-marker bytes: ground rule 4)
+
+
 def world_script(script, rng, n, maxans_choices=(1,), exact=False, per_name=4, opts_fn=None, **kw):
-    for _ in range(n):
-        w = semgen.gen_world(rng, **kw)
+    for i in range(n):
+        if "locs" not in kw and i % 2 == 1:
+            kw2 = dict(kw, locs=sorted(rng.sample(LOC_POOL, 2)))
+        else:
+            kw2 = kw
+        w = semgen.gen_world(rng, **kw2)
         script.file(w.lines, rng, tag="world", opts=opts_fn(rng) if opts_fn else None)
         for q, c in semgen.world_queries(w, rng, per_name=per_name, maxans_choices=maxans_choices, exact=exact):
             script.q(q, c, tag="world")
